@@ -29,11 +29,19 @@ MANIFEST = dict(
          "|eval| <= MaxEval (C18) are discharged (C05_analyze_precise_exact_64, _game64); for larger games the "
          "theorem holds under the explicit side condition `within` (the searched tree stays inside C01's 64-piece stack limit; "
          "the model's loops over the move generator take the node's own number of generated moves as fuel - Search.gfuel, proved sufficient - so no bound on it is assumed). Computed examples: Analyze next to exhaustive negamax on live 3x3 "
-         "positions, incl. a reused engine and a cancelled call. The model (transposition table, move generator "
+         "positions, incl. a reused engine and a cancelled call. "
+         "analyze_all_exact (SearchAll1-4.v): in the same setting AnalyzeAll (model Search.analyze_all) reports Analyze's line first and then, "
+         "as first moves, exactly filter (not Equal to pv[0], accepted, child value = the reported value) over AllMoves in the generator's "
+         "order (AllMoves order with NoSort or at depth 1, otherwise the history-table order = a permutation): every listed first move "
+         "attains the value, every entry of AllMoves - and every raw move value - that attains it is listed up to Move.Equal, no two listed "
+         "moves are Equal (C05_analyze_all_exact_64, _sets_64, _complete_raw); for a cancelled call the same holds as long as the flag was "
+         "not seen set when AnalyzeAll returns, and a computed counter-example replayed on the real engine shows that afterwards it does "
+         "not (C05_analyze_all_cancelled_refuted: the second pass runs with the flag set and abandoned child searches count as value 0). "
+         "The model (transposition table, move generator "
          "with hint de-duplication, history/response heuristics, iterative deepening, cancellation) is replayed against MinimaxAI.Analyze/"
          "AnalyzeAll on every history of calls (PV, value, depth at L1; the 17 Stats counters at L2), and an independent exhaustive "
          "negamax / forced-result solver judges value, first move, AnalyzeAll's set and the win/loss verdicts on fresh and reused engines.",
     ref='5.5', technique='Coq proof (PVS = negamax) + extracted-model/implementation differential over call histories + exhaustive negamax oracle',
     note="Trusted: Coq kernel, extraction, transcription of ai/minimax.go and ai/moves.go (validated by execution), generators. "
-         "The table clause (tt_valid_preserved, win_sound_complete), AnalyzeAll's set and symmetry de-duplication are tested, not proved. "
+         "The table clause (tt_valid_preserved, win_sound_complete) and symmetry de-duplication are tested, not proved; AnalyzeAll's set is proved for uncancelled calls (a cancelled AnalyzeAll can list moves that do not attain the value - see C05_analyze_all_cancelled_refuted; the check does not cancel AnalyzeAll). "
          "The model's loops over the move generator are bounded by the node's own number of generated moves (a first version used a constant fuel of 700, which made the model - not the Go code - stop early on positions with more moves; found by the C17 low-reserve family and removed).")
